@@ -740,12 +740,20 @@ PROPS["C09"] = mpmc_prop("C09", 9, [(0, "sr", 0, 4), (1, "sr", 0, 4), (1, "tr", 
                               bounds="zero-sized payload over ArrayBuf, capacity 2")])
 PROPS["C10"] = mpmc_prop("C10", 10, [(0, "sr", 0, 4), (1, "sr", 0, 4), (0, "sr", 5, 5), (1, "sr", 4, 5), (1, "cl", 3, 5), (0, "cl", 3, 5), (2, "sr", 4, 5), (1, "tr", 0, 4),
                                      (1, "cl", 4, 5), (2, "tr", 4, 5)],
-                        extra_quick=MPMC_WITNESSES)
+                        extra_quick=MPMC_WITNESSES + [
+                            H(LIFE, "shared_waker_mpmc", "hold", replay=("shared_waker_mpmc", 0), mask=P(10), est_s=250, est_gb=18, mem_gb=30, timeout=1500,
+                              bounds="shared (Arc) mpmc receive future: polled with waker A, re-polled with B (same data pointer, other vtable), "
+                                     "optionally A again; the implicit close (last sender dropped) wakes the LATEST one; then None")])
 PROPS["C11"] = c11_prop()
 PROPS["C12"] = recv_chan_prop("C12", 12, [(ONESHOT, "oneshot", "oneshot", "witness_second_receive_n6", 3),
                                           (ONESHOT_BC, "oneshot_bc", "oneshot-broadcast", "witness_second_receive_n6", 3)],
                               "GenericOneshotChannel / GenericOneshotBroadcastChannel", ONESHOT_FUNCS,
                               extra_quick=[
+                                  H(LIFE, "shared_waker_oneshot", "hold", replay=("shared_waker_oneshot", 0), mask=P(12), est_s=10, est_gb=1,
+                                    bounds="shared oneshot receive future: polled with waker A, re-polled with B (same data pointer, other vtable), "
+                                           "optionally A again; the implicit close wakes the LATEST one; then None"),
+                                  H(LIFE, "shared_waker_oneshot_bc", "hold", replay=("shared_waker_oneshot_bc", 0), mask=P(12), est_s=10, est_gb=1,
+                                    bounds="same for the shared oneshot-broadcast receive future"),
                                   H(LIFE, "life_oneshot_n3", "hold", replay=("life_oneshot", 0), mask=P(11), est_s=120, est_gb=4,
                                     bounds="shared oneshot (Arc handles): a receive future pending when the last handle of a side is dropped is woken and "
                                            "resolves to None; 3 drop operations"),
@@ -754,6 +762,9 @@ PROPS["C12"] = recv_chan_prop("C12", 12, [(ONESHOT, "oneshot", "oneshot", "witne
 PROPS["C13"] = recv_chan_prop("C13", 13, [(STATE, "state", "state-broadcast", "witness_follower_n6", 3)],
                               "GenericStateBroadcastChannel", STATE_FUNCS,
                               extra_quick=[
+                                  H(LIFE, "shared_waker_state", "hold", replay=("shared_waker_state", 0), mask=P(13), est_s=10, est_gb=1,
+                                    bounds="shared (Arc) StateReceiveFuture: polled with waker A, re-polled with B (same data pointer, other vtable), "
+                                           "optionally A again; the implicit close wakes the LATEST one; then None"),
                                   H(STATE, "contended_c13", "hold", replay=("state_contended", 0), mask=P(13), est_s=10, est_gb=1,
                                     bounds="thread-safe flavour (CheckLock) under modelled contention (a try_lock on the channel lock would fail once; "
                                            "lock() just waits): a poll still delivers a newer state or registers, the next send/close wakes it through "
@@ -1066,3 +1077,7 @@ DECODERS["state_contended"] = decode_raw
 DECODERS["timer_facade"] = decode_raw
 DECODERS["ring_next_idx"] = lambda cfg, script: ["ArrayBuf over a user-defined RealArray of %d elements; ring position i = %s" % (cfg, script[0] if script else "?")]
 DECODERS["mpmc_zst_growing"] = decode_mpmc_zst
+DECODERS["shared_waker_mpmc"] = decode_raw
+DECODERS["shared_waker_oneshot"] = decode_raw
+DECODERS["shared_waker_oneshot_bc"] = decode_raw
+DECODERS["shared_waker_state"] = decode_raw
